@@ -151,6 +151,27 @@ CLAIMED.update({
     note='Trusted: shim, z3. Worker processes and the allocator itself are outside the claim.',
     ref='DESIGN.md section 8 C19'),
 })
+CLAIMED.update({
+ 'C05': dict(
+    technique='symbolic execution of RaggedArray.__getitem__/where/flatten/attributes: element values and scalar indices symbolic (all integer indices at once), boolean masks symbolic, slice expressions enumerated on a stated grid; z3 validity of equality with the list-of-rows model',
+    text='For every lengths vector with <=3 rows of length 1..3 and both constructor forms, reads are executed on arrays whose element values are '
+         'solver variables and compared with the same expression on the list of rows: element access with symbolic integer indices (in range => '
+         'exactly that element, otherwise IndexError, never a neighbour), ragged boolean masks and where() with symbolic truth values, rows, row '
+         'slices/lists, (row, column) slices on a grid of positive/negative bounds and steps, paired fancy indices, iteration, flatten and '
+         'the lengths/starts/shape/size/dtype attributes. Deviations are classified by region of the index grammar; the nine regions that '
+         'deviate on this tree are recorded known findings, any other deviation is a violation.',
+    note='Trusted: shim, z3. Slice bounds are enumerated (stated grid), not symbolic. Multi-dimensional / object elements are outside the claim.',
+    ref='DESIGN.md section 8 C05'),
+ 'C06': dict(
+    technique='inductive step: one symbolic mutating operation (element/row/2-D slice/mask assignment, append, +=) or binary operator from an arbitrary constructor-built RaggedArray, then z3 validity of the representation invariant and observer/model agreement',
+    text='From any constructor-reachable state (lengths vector x symbolic contents, both constructor forms) one write / append / augmented '
+         'operation with symbolic operands is executed and z3 proves that _data, _array, lengths, starts and row reads all equal the list-of-rows '
+         'model after the same operation - one step from an arbitrary state covers histories of any length. Binary operators between ragged arrays '
+         'and with scalars are proved element-wise, structure-preserving, returning a new object that shares no storage, with operands unaltered; '
+         'constructing by copy never aliases the caller data.',
+    note='Trusted: shim (NumPy view/copy semantics come from the real object ndarray underneath), z3. Two known findings recorded.',
+    ref='DESIGN.md section 8 C06'),
+})
 PENDING = 'check not built yet in this session (work in progress; see DESIGN.md section 8 for the plan)'
 NA = {}
 
